@@ -6,7 +6,7 @@
    This generalises JsonRoundTrip.event_json_roundtrip (the order Event::as_json writes). *)
 From Coq Require Import List NArith Lia Bool Permutation.
 Import ListNotations.
-From Pocket Require Import Bytes Layout Codec JsonParse EscapeProofs EscapeRoundTrip HexProofs NumProofs CanonInj JsonRoundTrip.
+From Pocket Require Import Bytes Layout Codec JsonParse EscapeProofs EscapeRoundTrip HexProofs NumProofs CanonInj JsonRoundTrip FilterRoundTrip JsonSkip.
 Open Scope N_scope.
 Arguments N.add : simpl never. Arguments N.sub : simpl never. Arguments N.mul : simpl never.
 Arguments N.eqb : simpl never. Arguments N.ltb : simpl never. Arguments N.leb : simpl never.
@@ -391,6 +391,90 @@ Section Any.
     { intros k'. rewrite fold_mark. cbn [orb]. apply existsb_exists. exists k'. split; [apply Hall|apply ekey_eqb_eq; reflexivity]. }
     rewrite Ec, Eo. split; assumption.
   Qed.
+
+  (* ---------- the same with unknown members anywhere between the known ones ---------- *)
+  Inductive emem := EK (k : ekey) | EU (key : bytes) (v : jtree).
+  Definition embody (m : emem) (K : bytes) : bytes :=
+    match m with EK k => mbody k K | EU key v => key ++ 34 :: 58 :: jtext v ++ K end.
+  (* a key the parser does not know: skippable as a string, and none of the seven names *)
+  Definition unknown_key (key : bytes) : Prop :=
+    skippable_str key /\ forall rest,
+      starts_with k_id (key ++ 34 :: rest) = false /\ starts_with k_sig (key ++ 34 :: rest) = false /\
+      starts_with k_kind (key ++ 34 :: rest) = false /\ starts_with k_tags (key ++ 34 :: rest) = false /\
+      starts_with k_pubkey (key ++ 34 :: rest) = false /\ starts_with k_content (key ++ 34 :: rest) = false /\
+      starts_with k_created_at (key ++ 34 :: rest) = false.
+  Definition emem_ok (m : emem) : Prop :=
+    match m with EK _ => True | EU key v => unknown_key key /\ jwf v /\ jdepth v <= 128 end.
+  Fixpoint known (ms : list emem) : list ekey :=
+    match ms with [] => [] | EK k :: r => k :: known r | EU _ _ :: r => known r end.
+  Fixpoint uclose (ms : list emem) (tail : bytes) : bytes :=
+    match ms with [] => 125 :: tail | m :: r => 44 :: 34 :: embody m (uclose r tail) end.
+  Lemma uclose_follows ms tail : efollows (uclose ms tail).
+  Proof. destruct ms; cbn [uclose]; eexists _, _; split; try reflexivity; auto. Qed.
+
+  Lemma step_unknown st key v K : unknown_key key -> jwf v -> jdepth v <= 128 -> efollows K ->
+    event_member st (key ++ 34 :: 58 :: jtext v ++ K) = Ok (st, K).
+  Proof.
+    intros [Hk Hn] Hv Hd HK. unfold event_member.
+    destruct (Hn (58 :: jtext v ++ K)) as (N1 & N2 & N3 & N4 & N5 & N6 & N7).
+    rewrite N1, N2, N3, N4, N5, N6, N7.
+    rewrite (burn_member_skips key v K Hk Hv Hd); [reflexivity|].
+    destruct HK as [c [r [-> [->| ->]]]]; eexists _, _; split; try reflexivity; auto.
+  Qed.
+
+  Lemma stepu m (p : prog) st K : emem_ok m -> (forall k, m = EK k -> p k = false) -> Inv p st -> efollows K ->
+    exists st', event_member st (embody m K) = Ok (st', K) /\ Inv (fold_left mark (known [m]) p) st'.
+  Proof.
+    intros Hok Hp Hi HK. destruct m as [k|key v]; cbn [embody known fold_left].
+    - apply step; [apply Hp; reflexivity|exact Hi|exact HK].
+    - destruct Hok as (Hk & Hv & Hd). exists st. split; [apply step_unknown; assumption|exact Hi].
+  Qed.
+
+  Lemma known_app a b : known (a ++ b) = known a ++ known b.
+  Proof. induction a as [|m r IH]; [reflexivity|]. destruct m; cbn [app known]; rewrite IH; reflexivity. Qed.
+
+  Lemma loopu r : forall m (p : prog) st fuel tail, Forall emem_ok (m :: r) -> NoDup (known (m :: r)) ->
+    (forall k', In k' (known (m :: r)) -> p k' = false) -> Inv p st ->
+    exists st', event_members (Datatypes.S (length r) + fuel) st (34 :: embody m (uclose r tail)) = Ok (st', tail) /\
+                Inv (fold_left mark (known (m :: r)) p) st'.
+  Proof.
+    induction r as [|m2 r IH]; intros m p st fuel tail Hok Hnd Hp Hi.
+    - apply Forall_cons_iff in Hok. destruct Hok as [Hm _].
+      destruct (stepu m p st (uclose [] tail) Hm) as [st1 [Hm1 Hi1]]; [|exact Hi|apply uclose_follows|].
+      { intros k ->. apply Hp. left. reflexivity. }
+      exists st1. split; [|exact Hi1]. cbn [length plus event_members].
+      rewrite (eat_ws_nonws 34) by reflexivity. cbn [verify_char]. change (34 =? 34) with true. cbv iota. cbn [bind].
+      rewrite Hm1. cbn [bind uclose]. rewrite next_field_close. reflexivity.
+    - apply Forall_cons_iff in Hok. destruct Hok as [Hm Hokr].
+      destruct (stepu m p st (uclose (m2 :: r) tail) Hm) as [st1 [Hm1 Hi1]]; [|exact Hi|apply uclose_follows|].
+      { intros k ->. apply Hp. left. reflexivity. }
+      assert (Hsplit : known (m :: m2 :: r) = known [m] ++ known (m2 :: r)) by (change (m :: m2 :: r) with ([m] ++ m2 :: r); apply known_app).
+      rewrite Hsplit in Hnd, Hp. rewrite Hsplit, fold_left_app.
+      destruct (IH m2 (fold_left mark (known [m]) p) st1 fuel tail Hokr) as [st' [Hl Hi']]; [| |exact Hi1|].
+      + clear -Hnd. induction (known [m]) as [|a l IHl]; [exact Hnd|]. cbn [app] in Hnd. apply NoDup_cons_iff in Hnd. apply IHl. apply Hnd.
+      + intros k' Hin. rewrite fold_mark. apply orb_false_iff. split; [apply Hp; apply in_or_app; right; exact Hin|].
+        destruct (existsb (ekey_eqb k') (known [m])) eqn:Ex; [|reflexivity]. exfalso.
+        apply existsb_exists in Ex. destruct Ex as [k0 [Hk0 Ek0]]. apply ekey_eqb_eq in Ek0. subst k0.
+        clear -Hnd Hk0 Hin. induction (known [m]) as [|a l IHl]; [destruct Hk0|]. cbn [app] in Hnd. apply NoDup_cons_iff in Hnd. destruct Hnd as [Hna Hnd].
+        destruct Hk0 as [->|Hk0]; [apply Hna; apply in_or_app; right; exact Hin|apply IHl; assumption].
+      + exists st'. split; [|exact Hi']. cbn [length plus event_members].
+        rewrite (eat_ws_nonws 34) by reflexivity. cbn [verify_char]. change (34 =? 34) with true. cbv iota. cbn [bind].
+        rewrite Hm1. cbn [bind]. cbn [uclose]. rewrite next_field_comma. cbn [bind]. exact Hl.
+  Qed.
+
+  Lemma members_any_order_u m r fuel tail : Forall emem_ok (m :: r) -> NoDup (known (m :: r)) -> (forall k', In k' (known (m :: r))) ->
+    exists st', event_members (Datatypes.S (length r) + fuel) (mkEv (x0 ++ x4 ++ [0; 0] ++ x8 ++ x16 ++ x48 ++ x80 ++ F) 0 0 None)
+                  (34 :: embody m (uclose r tail)) = Ok (st', tail) /\
+      ev_complete st' = 127 /\
+      ev_out st' = le32 total ++ le16 (e_kind e) ++ [0; 0] ++ le64 (e_created e) ++ e_id e ++ e_pk e ++ e_sig e ++
+                   enc_tags (e_tags e) ++ le32 (len s) ++ s ++ drop (4 + len s) (drop tsz F).
+  Proof.
+    intros Hok Hnd Hall. destruct (loopu r m (fun _ => false) _ fuel tail Hok Hnd (fun _ _ => eq_refl) Inv_init) as [st' [Hl (Eo & Ec & _)]].
+    exists st'. split; [exact Hl|].
+    destruct (buf_full (fold_left mark (known (m :: r)) (fun _ => false))) as [Hb Hbits].
+    { intros k'. rewrite fold_mark. cbn [orb]. apply existsb_exists. exists k'. split; [apply Hall|apply ekey_eqb_eq; reflexivity]. }
+    rewrite Ec, Eo. split; assumption.
+  Qed.
 End Any.
 
 (* ====================== the theorem, in terms of what as_json writes ====================== *)
@@ -514,6 +598,105 @@ Proof.
   rewrite take_app_len. reflexivity.
 Qed.
 
+(* ====================== unknown members between the known ones ====================== *)
+Definition jbody (e : aevent) (tj cj : bytes) (m : emem) (K : bytes) : bytes :=
+  match m with EK k => jmember e tj cj k K | EU key v => key ++ 34 :: 58 :: jtext v ++ K end.
+Fixpoint juclose (e : aevent) (tj cj : bytes) (ms : list emem) (tail : bytes) : bytes :=
+  match ms with [] => 125 :: tail | m :: r => 44 :: 34 :: jbody e tj cj m (juclose e tj cj r tail) end.
+Definition event_text_u (e : aevent) (tj cj : bytes) (ms : list emem) (tail : bytes) : bytes :=
+  match ms with [] => 123 :: 125 :: tail | m :: r => 123 :: 34 :: jbody e tj cj m (juclose e tj cj r tail) end.
+Definition kwm (m : emem) : nat := match m with EK k => kw k | EU _ _ => 0%nat end.
+
+Lemma kwm_known ms : list_sum (map kw (known ms)) = list_sum (map kwm ms).
+Proof. unfold list_sum. induction ms as [|m r IH]; [reflexivity|]. destruct m; cbn [known map fold_right kwm]; lia. Qed.
+
+Section TextU.
+  Variable e : aevent.
+  Variables tj cj : bytes.
+  Variable tes : list (list bytes).
+  Hypothesis Htxt : forall K, tj ++ K = 91 :: tags_body tes K.
+  Hypothesis Lid : len (e_id e) = 32.
+  Hypothesis Lpk : len (e_pk e) = 32.
+  Hypothesis Lsg : len (e_sig e) = 64.
+
+  Lemma jbody_embody m K : jbody e tj cj m K = embody e tes cj m K.
+  Proof. destruct m; cbn [jbody embody]; [apply (jmember_mbody e tj cj tes Htxt)|reflexivity]. Qed.
+  Lemma juclose_uclose ms tail : juclose e tj cj ms tail = uclose e tes cj ms tail.
+  Proof. induction ms as [|m r IH]; cbn [juclose uclose]; [reflexivity|]. rewrite IH, jbody_embody. reflexivity. Qed.
+  Lemma jbody_length m K : (kwm m + length K <= length (jbody e tj cj m K))%nat.
+  Proof.
+    destruct m as [k|key v]; cbn [jbody kwm]; [apply (jmember_length e tj cj tes Htxt Lid Lpk Lsg)|].
+    rewrite app_length. cbn [length]. rewrite app_length. lia.
+  Qed.
+  Lemma juclose_length ms tail : (list_sum (map kwm ms) + length tail <= length (juclose e tj cj ms tail))%nat /\
+                                 (length ms <= length (juclose e tj cj ms tail))%nat.
+  Proof.
+    unfold list_sum. induction ms as [|m r [IH1 IH2]]; cbn [juclose map fold_right length]; [split; lia|].
+    pose proof (jbody_length m (juclose e tj cj r tail)). split; lia.
+  Qed.
+End TextU.
+
+Theorem event_any_order_unknown e tj cj ms tail out :
+  wf_event_json e -> tags_as_json (e_tags e) = Ok tj -> json_escape (e_content e) = Ok cj ->
+  Forall emem_ok ms -> NoDup (known ms) -> (forall k, In k (known ms)) -> event_size e <= len out ->
+  event_from_json (event_text_u e tj cj ms tail) out
+  = Ok (len (event_text_u e tj cj ms tail) - len tail, enc_event e, enc_event e ++ drop (event_size e) out).
+Proof.
+  intros W Htj Hcj Hok Hnd Hall Hcap.
+  pose proof W as (Wid & Lid & Wpk & Lpk & Wsg & Lsg & Hk & Hc & Vt & Ft & Vc & Hsz).
+  destruct (tags_as_json_text (e_tags e) Vt) as [tes [H2 Htxt0]].
+  assert (Htxt : forall K, tj ++ K = 91 :: tags_body tes K).
+  { intros K. destruct (Htxt0 K) as [tj' [E1 E2]]. assert (tj' = tj) by congruence. subst tj'. exact E2. }
+  pose proof (tags_size_ge4 (e_tags e)) as Hts4. unfold event_size in Hcap, Hsz.
+  assert (Hperm : Permutation (known ms) all_keys).
+  { apply NoDup_Permutation; [exact Hnd|repeat constructor; cbn; intuition discriminate|].
+    intros k. split; [intros _; destruct k; cbn; auto 8|intros _; apply Hall]. }
+  destruct ms as [|k r]; [exfalso; exact (Hall KId)|].
+  set (txt := event_text_u e tj cj (k :: r) tail).
+  (* the text is long *)
+  assert (Hlen : (256 + length tail <= length txt)%nat /\ (length r <= length txt)%nat).
+  { subst txt. cbn [event_text_u length].
+    pose proof (jbody_length e tj cj tes Htxt Lid Lpk Lsg k (juclose e tj cj r tail)) as H1.
+    pose proof (juclose_length e tj cj tes Htxt Lid Lpk Lsg r tail) as [H2' H3'].
+    pose proof (list_sum_perm _ _ (Permutation_map kw Hperm)) as Hs. unfold list_sum in *. cbn [map fold_right all_keys kw] in Hs.
+    pose proof (kwm_known (k :: r)) as Hkk. unfold list_sum in Hkk. cbn [map fold_right] in Hkk. rewrite Hkk in Hs. lia. }
+  destruct Hlen as [Hlen Hr6].
+  destruct (split_blocks out ltac:(lia)) as (x0 & x4 & x6 & x8 & x16 & x48 & x80 & F & Eout & L0 & L4 & L6 & L8 & L16 & L48 & L80 & EF).
+  assert (LF : len F = len out - 144) by (rewrite EF; apply len_drop).
+  unfold event_from_json, parse_json_event.
+  replace (len txt <? 204) with false by (symmetry; apply N.ltb_ge; unfold len; lia).
+  replace (len out <? 152) with false by (symmetry; apply N.ltb_ge; lia).
+  rewrite Eout at 1.
+  replace (x0 ++ x4 ++ x6 ++ x8 ++ x16 ++ x48 ++ x80 ++ F) with ((x0 ++ x4) ++ x6 ++ (x8 ++ x16 ++ x48 ++ x80 ++ F)) by (rewrite <- !app_assoc; reflexivity).
+  rewrite (put_raw_at (x0 ++ x4) x6 [0; 0] _ 6) by (rewrite ?len_app; change (len [0; 0]) with 2; lia). cbn [bind].
+  replace ((x0 ++ x4) ++ [0; 0] ++ x8 ++ x16 ++ x48 ++ x80 ++ F) with (x0 ++ x4 ++ [0; 0] ++ x8 ++ x16 ++ x48 ++ x80 ++ F) by (rewrite <- !app_assoc; reflexivity).
+  assert (Etxt : txt = 123 :: 34 :: embody e tes cj k (uclose e tes cj r tail)).
+  { subst txt. cbn [event_text_u]. rewrite (jbody_embody e tj cj tes Htxt), (juclose_uclose e tj cj tes Htxt). reflexivity. }
+  rewrite Etxt at 1. rewrite (eat_ws_nonws 123) by reflexivity. cbn [verify_char]. change (123 =? 123) with true. cbv iota. cbn [bind].
+  destruct (members_any_order_u e tes cj W H2 Hcj x0 x4 x8 x16 x48 x80 F L0 L4 L8 L16 L48 L80 ltac:(lia) k r (length txt - length r) tail Hok Hnd (fun k' => Hall k'))
+    as [st' [Hl [Ec Eo]]].
+  replace (Datatypes.S (length txt)) with (Datatypes.S (length r) + (length txt - length r))%nat by lia.
+  rewrite Hl. cbn [bind]. rewrite Ec. change (127 =? 127) with true. cbv iota. rewrite Eo.
+  set (total := 144 + tags_size (e_tags e) + 4 + len (e_content e)).
+  rewrite (rd32_le32 total) by (subst total; lia).
+  assert (Eenc : le32 total ++ le16 (e_kind e) ++ [0; 0] ++ le64 (e_created e) ++ e_id e ++ e_pk e ++ e_sig e ++
+                 enc_tags (e_tags e) ++ le32 (len (e_content e)) ++ e_content e ++ drop (4 + len (e_content e)) (drop (tags_size (e_tags e)) F)
+                 = enc_event e ++ drop (event_size e) out).
+  { replace (drop (4 + len (e_content e)) (drop (tags_size (e_tags e)) F)) with (drop (event_size e) out)
+      by (rewrite EF, !drop_drop; f_equal; unfold event_size; lia).
+    unfold enc_event. rewrite <- ?app_assoc. reflexivity. }
+  rewrite Eenc.
+  assert (Lenc : len (enc_event e ++ drop (event_size e) out) = len out).
+  { rewrite len_app, len_drop. unfold enc_event. rewrite !len_app, len_le32, len_le16, len_le64, len_enc_tags, len_le32, Lid, Lpk, Lsg.
+    change (len [0; 0]) with 2. unfold event_size. lia. }
+  assert (Ltot : total = len (enc_event e)).
+  { unfold enc_event. rewrite !len_app, len_le32, len_le16, len_le64, len_enc_tags, len_le32, Lid, Lpk, Lsg. change (len [0; 0]) with 2. subst total. lia. }
+  rewrite Ltot. cbn [bind].
+  replace (len (enc_event e ++ drop (event_size e) out) <? len (enc_event e)) with false by (symmetry; apply N.ltb_ge; rewrite Lenc, <- Ltot; subst total; lia).
+  rewrite take_app_len. reflexivity.
+Qed.
+
+
 (* order independence: two texts with the seven members in different orders give the same bytes *)
 Corollary event_order_independent e tj cj ms ms' tail tail' out :
   wf_event_json e -> tags_as_json (e_tags e) = Ok tj -> json_escape (e_content e) = Ok cj ->
@@ -531,4 +714,36 @@ Proof.
   intros Htj Hcj. unfold event_as_json. rewrite Htj, Hcj. cbn [bind].
   unfold event_text, jclose, jmember, s_id_open, s_pubkey, s_kind, s_created, s_tags, s_content, s_sig, s_close.
   rewrite <- ?app_assoc. cbn [app]. rewrite <- ?app_assoc. cbn [app]. reflexivity.
+Qed.
+
+(* a key without quote or backslash that is none of the seven names is unknown to the parser *)
+Lemma starts_with_name name : forall key rest, ~ In 34 name -> ~ In 34 key ->
+  starts_with (name ++ [34]) (key ++ 34 :: rest) = true -> key = name.
+Proof.
+  induction name as [|a name IH]; intros key rest Hn Hk H.
+  - destruct key as [|c key]; [reflexivity|]. cbn [app starts_with] in H. apply andb_true_iff in H. destruct H as [H _].
+    apply N.eqb_eq in H. exfalso. apply Hk. left. symmetry. exact H.
+  - destruct key as [|c key]; cbn [app starts_with] in H.
+    + apply andb_true_iff in H. destruct H as [H _]. apply N.eqb_eq in H. exfalso. apply Hn. left. exact H.
+    + apply andb_true_iff in H. destruct H as [H1 H2]. apply N.eqb_eq in H1. subst c. f_equal.
+      apply (IH key rest); [intros X; apply Hn; right; exact X|intros X; apply Hk; right; exact X|exact H2].
+Qed.
+
+Definition known_names : list bytes :=
+  [[105; 100]; [115; 105; 103]; [107; 105; 110; 100]; [116; 97; 103; 115]; [112; 117; 98; 107; 101; 121];
+   [99; 111; 110; 116; 101; 110; 116]; [99; 114; 101; 97; 116; 101; 100; 95; 97; 116]].
+
+Lemma plain_unknown_key key : Forall (fun c => c <> 34 /\ c <> 92) key -> ~ In key known_names -> unknown_key key.
+Proof.
+  intros Hp Hn. split; [apply plain_skippable; exact Hp|].
+  assert (Hq : ~ In 34 key) by (intros X; rewrite Forall_forall in Hp; destruct (Hp _ X) as [Y _]; apply Y; reflexivity).
+  assert (G : forall name rest, In name known_names -> starts_with (name ++ [34]) (key ++ 34 :: rest) = false).
+  { intros name rest Hin. destruct (starts_with (name ++ [34]) (key ++ 34 :: rest)) eqn:E; [|reflexivity]. exfalso.
+    apply Hn. assert (key = name); [|subst; exact Hin]. apply (starts_with_name name key rest); [|exact Hq|exact E].
+    unfold known_names in Hin. cbn [In] in Hin. intros X.
+    repeat (destruct Hin as [<-|Hin]; [cbn [In] in X; repeat (destruct X as [X|X]; [discriminate X|]); exact X|]). exact Hin. }
+  intros rest. unfold known_names in G.
+  refine (conj (G [105; 100] rest _) (conj (G [115; 105; 103] rest _) (conj (G [107; 105; 110; 100] rest _) (conj (G [116; 97; 103; 115] rest _)
+          (conj (G [112; 117; 98; 107; 101; 121] rest _) (conj (G [99; 111; 110; 116; 101; 110; 116] rest _) (G [99; 114; 101; 97; 116; 101; 100; 95; 97; 116] rest _)))))));
+    cbn [In]; auto 8.
 Qed.
